@@ -259,12 +259,55 @@ def generated_defaults_stage(ctx):
     return {"generated_defaults_checked": len(fields) + sum(len(e[2]) + 1 for e in enums)}, fails
 
 
+def enum_name_default_stage(ctx):
+    """a scalar field's default may be given as the NAME of an enum member (x:short = Limit.Big): it is a numeric literal like any other — accepted iff
+    the member's value is representable in the field's type, and the generated reader's default is then exactly that value. One schema per (type,
+    member) pair through the flatcc binary; the default is read from the generated reader's field definition."""
+    import shutil, re
+    from concurrent.futures import ThreadPoolExecutor
+    flatcc, _ = build_flatcc(ctx, tag="ccplain")
+    ints = {"byte": (-128, 127), "ubyte": (0, 255), "short": (-32768, 32767), "ushort": (0, 65535), "int": (-2**31, 2**31 - 1), "uint": (0, 2**32 - 1),
+            "long": (-2**63, 2**63 - 1), "ulong": (0, 2**64 - 1)}
+    mi = [-2**31, -32769, -32768, -129, -128, -5, 0, 7, 127, 128, 255, 256, 32767, 32768, 65535, 65536, 70000, 2**31 - 1]
+    ml = [-2**63, -2**31 - 1, 2**31, 2**32 - 1, 2**32, 2**63 - 1]
+    mu = [2**63, 2**64 - 1]
+    d = os.path.join(ctx.work, "endef"); os.makedirs(d, exist_ok=True)
+    jobs = []
+    for t in ints:
+        for (en, et, vals) in (("Li", "int", mi), ("Ll", "long", ml), ("Lu", "ulong", mu)):
+            for k, v in enumerate(vals): jobs.append((t, en, et, k, v))
+    def one(j):
+        t, en, et, k, v = j
+        name = "e_%s_%s_%d" % (t, en, k)
+        fbs = "namespace ED;\nenum %s:%s { M = %d }\ntable T { x:%s = %s.M; }\n" % (en, et, v, t, en)
+        p = os.path.join(d, name + ".fbs"); open(p, "w").write(fbs)
+        od = os.path.join(d, name); os.makedirs(od, exist_ok=True)
+        rc, out, err = sh([flatcc, "-o", od, p], timeout=60)
+        lo, hi = ints[t]
+        fits = lo <= v <= hi
+        if rc < 0 or rc in (134, 139): return ("the compiler crashed (rc=%d) on x:%s = %s.M with M = %d" % (rc, t, en, v), fbs)
+        if rc == 0 and not fits: return ("x:%s = %s.M with M = %d is accepted although the value is not representable in %s" % (t, en, v, t), fbs)
+        if rc != 0 and fits: return ("x:%s = %s.M with M = %d is rejected although the value fits %s: %s" % (t, en, v, t, (out + err)[-200:]), fbs)
+        if rc == 0:
+            txt = open(os.path.join(od, name + "_reader.h")).read()
+            m = re.search(r"define_scalar_field\(\d+, ED_T, x, \w+, \w+, (?:U?INT\d+_C\()?(-?\d+)", txt)
+            if not m or int(m.group(1)) != v: return ("x:%s = %s.M with M = %d: the generated reader's default is %s" % (t, en, v, m.group(1) if m else "not found"), fbs)
+        return None
+    with ThreadPoolExecutor(16) as ex:
+        res = [x for x in ex.map(one, jobs) if x]
+    shutil.rmtree(d, ignore_errors=True)
+    return {"enum_name_defaults_checked": len(jobs)}, res
+
+
 def run(ctx):
     ths = proof_stage(ctx)
     if ths is None:
         finish(ctx, [])
     gd_stats, gd_fail = generated_defaults_stage(ctx)
     ctx.cov.update(gd_stats)
+    en_stats, en_fail = enum_name_default_stage(ctx)
+    ctx.cov.update(en_stats)
+    gd_fail = gd_fail + en_fail
     if gd_fail:
         violation(ctx, "gendefaults_%d.json" % ctx.seed, {"kind": "property-fails-on-implementation", "why": gd_fail[0][0][:2000], "count": len(gd_fail),
                                                             "schema_fbs": gd_fail[0][1], "more": [f[0][:200] for f in gd_fail[1:6]]})
